@@ -73,16 +73,19 @@ int main() {
     // "gs": the same graph with every value divided by 8 (exact dyadic doubles); the answers are printed multiplied by 8
     // "gt" / "gh": the same in a very large / very small unit (values times 2^-60 / 2^40: exact, the property is scale invariant)
     const double scale = (tag == "gs") ? 8.0 : (tag == "gt") ? std::ldexp(1.0, 60) : (tag == "gh") ? std::ldexp(1.0, -40) : 1.0;
-    if (tag != "g" && tag != "gs" && tag != "gt" && tag != "gh") { vh::emit("BADLINE"); continue; }
+    // "go": the same graph with 2^26 added to every value (exact in double, not in single precision: a table that stores the
+    // values in a narrower type merges distinct values); the answers are printed with 2^26 subtracted
+    const double off = (tag == "go") ? 67108864.0 : 0.0;
+    if (tag != "g" && tag != "gs" && tag != "gt" && tag != "gh" && tag != "go") { vh::emit("BADLINE"); continue; }
     std::vector<Edge> edges;
     std::map<std::pair<int, int>, int> index;
     long long u, v, w;
     int k = 0;
     while (is >> u >> v >> w) {
 #ifdef C12_TAGGED
-      edges.emplace_back((int)u, (int)v, TV{(double)w / scale, k});
+      edges.emplace_back((int)u, (int)v, TV{(double)w / scale + off, k});
 #else
-      edges.emplace_back((int)u, (int)v, (double)w / scale);
+      edges.emplace_back((int)u, (int)v, (double)w / scale + off);
 #endif
       index[{(int)u, (int)v}] = k;
       ++k;
@@ -109,7 +112,7 @@ int main() {
       for (int i : order) ans += " " + std::to_string(i);
       ans += "|RES";
       for (auto& e : res) {
-        ans += " " + std::to_string(std::get<0>(e)) + " " + std::to_string(std::get<1>(e)) + " " + num(fv_val(std::get<2>(e)) * scale);
+        ans += " " + std::to_string(std::get<0>(e)) + " " + std::to_string(std::get<1>(e)) + " " + num((fv_val(std::get<2>(e)) - off) * scale);
       }
     } catch (std::exception const& ex) {
       ans = std::string("EXC ") + ex.what();
